@@ -179,6 +179,11 @@ def r_broken_paths(e, R):
     if not res_tests or not wk_tests:
         raise AnalysisError("readiness tests of the result reader / wake-up reader not found")
     paths = _enumerate_paths(wg)
+    esc = [p for p in paths if p[-1][0] is wg.raise_exit]
+    R.check(not esc, "R-BROKEN-PATHS", f"{wf.short}: no exception escapes the wait function", wf.short, "exception escapes",
+            "an exception raised while receiving/classifying can escape the wait function: the manager thread dies and every "
+            "pending future stays unresolved (the handler around recv must catch BaseException)", e.loc(wf, wf.node),
+            [repr(n) for n, _ in esc[0]][-6:] if esc else None)
     n_classes = {}
     for path in paths:
         if path[-1][0] is wg.raise_exit:
@@ -474,16 +479,18 @@ def r_exc_types(e, R):
 def kill_workers_func(e):
     """Manager function that empties the worker table and kills every tree."""
     a = e.anchors
-    kill = kill_pred(e)
+    closeq = close_callq_pred(e)
     out = []
     for q in a.manager_funcs:
         f = e.prog.funcs[q]
-        if q.startswith("loky.backend.utils:"):
+        if not f.module.name.startswith("loky.process_executor"):
             continue
-        if any(isinstance(n, ast.Call) and kill(f, n) for n in func_nodes(f)):
+        pops = any(isinstance(n, ast.Call) and e.receiver_objs(f, n, ("popitem",)) & a.processes for n in func_nodes(f))
+        closes = any(isinstance(n, ast.Call) and closeq(f, n) for n in func_nodes(f))
+        if pops and not closes:
             out.append(f)
     if len(out) != 1:
-        raise AnalysisError(f"kill-workers routine not unique: {[f.short for f in out]}")
+        raise AnalysisError(f"kill-workers routine (empties the worker table, no queue close) not unique: {[f.short for f in out]}")
     return out[0]
 
 
